@@ -35,6 +35,10 @@ func TestC15LockService(t *testing.T) {
 		ls := sysbind.NewLockSvc(n,
 			func(what string, k int) int { return rapid.IntRange(0, k-1).Draw(t, what) },
 			func(in *sched.Instance, id string, k uint) uint { return uint(rapid.IntRange(0, int(k)-1).Draw(t, id)) })
+		// the deployed mailboxes refuse a send they cannot deliver (failed dial) or a section at pre-commit; the section
+		// then aborts and is retried — it must not go on differently
+		ls.Store.RefuseWritePct = rapid.SampledFrom([]int{0, 0, 10, 30}).Draw(t, "write-refusals")
+		ls.Store.RefusePct = rapid.SampledFrom([]int{0, 0, 5, 20}).Draw(t, "precommit-refusals")
 		if err := ls.Sim.Start(); err != nil {
 			t.Fatalf("INCONCLUSIVE: %v", err)
 		}
